@@ -111,6 +111,7 @@ type FnCtx struct {
 	noDefine int
 	cmdOnly  map[int]string // cmd index -> comma separated obligation labels it is relevant for
 	curOnly  string
+	useBound map[string]Val // extra spec bindings (the results) for function-level `use` lines instantiated at an exit
 	cmdFact  map[int]string // cmd index -> label of the contract clause this fact comes from
 	curFact  string
 	curNeeds []string
